@@ -136,14 +136,22 @@ Fixpoint profiles_while (fuel : nat) (st : pst) : pst :=
     end
   else st.
 
-(* the version inside "( op version )": one IDENT, or IDENT COLON IDENT when it carries an epoch.
-   (Fix C10-epoch-and-space-in-version.  Before the fix this was [expect IDENT st]: a version with
-   an epoch, "a (>= 1:2.0)", was rejected with three errors; and no whitespace was skipped
-   between the version and ")", so "a (>= 1 )" was rejected too.) *)
+(* the version inside "( op version )": IDENT (COLON IDENT)* -- a version with an epoch is lexed
+   IDENT COLON IDENT, and its upstream part may contain further colons ("0:09:09-s").
+   History in /repo: before 0eb8794 this was [expect IDENT st] ("a (>= 1:2.0)" rejected with three
+   errors); 0eb8794 accepted one COLON IDENT; c2fa7c8 made it a loop.  43dd02f added the skip_ws
+   between the version and ")". *)
+Fixpoint version_colons (fuel : nat) (st : pst) : pst :=
+  if cur_is st COLON then
+    match fuel with
+    | O => out_of_fuel st
+    | S f => version_colons f (expect IDENT (bump st))
+    end
+  else st.
 Definition version_text (st : pst) : pst :=
   if cur_is st IDENT then
     let st := bump st in
-    if cur_is st COLON then expect IDENT (bump st) else st
+    version_colons (loop_fuel st) st
   else error st.
 
 Definition parse_relation (st : pst) : pst :=
